@@ -23,6 +23,9 @@ import (
 
 const maxDepth = 4
 
+// one message in bigEvery may carry one large (64 KiB … bigMax) bytes field
+var bigEvery = 250
+
 // apiMessageTypes returns every message type (nested ones included, synthetic map entries
 // excluded) declared by the four API proto files, sorted by full name.
 func apiMessageTypes() []protoreflect.MessageType {
@@ -87,11 +90,12 @@ type mg struct {
 }
 
 func newMG(r *rand.Rand, rich bool, bigMax int) *mg {
-	g := &mg{r: r, rich: rich, bigMax: bigMax, feat: map[string]struct{}{}, budget: 250}
+	g := &mg{r: r, rich: rich, bigMax: bigMax, feat: map[string]struct{}{}}
+	g.budget = []int{6, 20, 20, 60, 60, 150}[r.Intn(6)]
 	if rich {
-		g.budget = 500
+		g.budget = g.budget*2 + 20
 	}
-	if r.Intn(60) == 0 {
+	if r.Intn(bigEvery) == 0 {
 		g.bigs = 1
 	}
 	return g
@@ -305,7 +309,7 @@ func (g *mg) bytesVal(zero bool) []byte {
 			g.note("bytes:large(>=1MiB)")
 		}
 		b := make([]byte, n)
-		g.r.Read(b)
+		fillRandom(g.r, b)
 		return b
 	}
 	x := g.r.Intn(100)
@@ -318,15 +322,19 @@ func (g *mg) bytesVal(zero bool) []byte {
 		return append([]byte{}, nasty[g.r.Intn(len(nasty))]...)
 	case x < 80:
 		b := make([]byte, 1+g.r.Intn(32))
-		g.r.Read(b)
+		fillRandom(g.r, b)
+		return b
+	case x < 92:
+		b := make([]byte, 33+g.r.Intn(200))
+		fillRandom(g.r, b)
 		return b
 	case x < 97:
 		b := make([]byte, 100+g.r.Intn(5000))
-		g.r.Read(b)
+		fillRandom(g.r, b)
 		return b
 	default:
 		b := make([]byte, 127+g.r.Intn(3)+128*g.r.Intn(130)) // around varint length boundaries (127/128, 16383/16384)
-		g.r.Read(b)
+		fillRandom(g.r, b)
 		return b
 	}
 }
@@ -568,6 +576,16 @@ func compare(orig, got proto.Message) (diffs []fdiff, equal bool, disagree bool)
 	diffMsg(string(orig.ProtoReflect().Descriptor().Name()), orig.ProtoReflect(), got.ProtoReflect(), &diffs)
 	eq := proto.Equal(orig, got)
 	return diffs, eq && len(diffs) == 0, eq != (len(diffs) == 0)
+}
+
+// compareFast asks proto.Equal first and runs the own comparer only to explain a mismatch (used
+// where the same decoded value was already judged by both oracles on another path).
+func compareFast(orig, got proto.Message) (diffs []fdiff, equal bool, disagree bool) {
+	if proto.Equal(orig, got) {
+		return nil, true, false
+	}
+	diffMsg(string(orig.ProtoReflect().Descriptor().Name()), orig.ProtoReflect(), got.ProtoReflect(), &diffs)
+	return diffs, false, len(diffs) == 0
 }
 
 // onlyEmptyRangeEndPresence: every difference is "Command.range_end absent in the original,
